@@ -117,6 +117,23 @@ func fqkGet(m meta.Definition, container map[string]interface{}) (interface{}, b
 	return v, found
 }
 
+// jsonHasAny looks for a member of one of the definitions, the cases of nested
+// choices included: their nodes are members of the same object
+func jsonHasAny(defs []meta.Definition, container map[string]interface{}) bool {
+	for _, prop := range defs {
+		if nested, isChoice := prop.(*meta.Choice); isChoice {
+			for _, kase := range nested.Cases() {
+				if jsonHasAny(kase.DataDefinitions(), container) {
+					return true
+				}
+			}
+		} else if _, found := fqkGet(prop, container); found {
+			return true
+		}
+	}
+	return false
+}
+
 func JsonContainerReader(container map[string]interface{}) node.Node {
 	s := &Basic{}
 	var divertedList node.Node
@@ -126,13 +143,11 @@ func JsonContainerReader(container map[string]interface{}) node.Node {
 		// until one case aligns with data.  If no cases align then input in inconclusive
 		// i.e. non-discriminating and we should error out.
 		for _, kase := range choice.Cases() {
-			for _, prop := range kase.DataDefinitions() {
-				if _, found := fqkGet(prop, container); found {
-					return kase, nil
-				}
-				// just because you didn't find a property doesnt
-				// mean it's invalid, it's only if you don't find any
-				// of the properties of a case
+			// just because you didn't find a property doesnt
+			// mean it's invalid, it's only if you don't find any
+			// of the properties of a case
+			if jsonHasAny(kase.DataDefinitions(), container) {
+				return kase, nil
 			}
 		}
 		// just because you didn't find any properties of any cases doesn't
